@@ -73,6 +73,9 @@ EXTRA_OPS = [
     ("atmasses", None), ("atmasses", ("nd", [1.0, 2.0])), ("atmasses", ("nd", [1.0, 2.0, 3.0])),
     ("atgradient", None), ("atgradient", ("coords", 2)), ("atgradient", ("coords", 3)),
     ("atfrozen", None), ("atfrozen", ("nd", [True, False], "bool")), ("atfrozen", ("nd", [True, False, True], "bool")),
+    # zero atoms and a single atom: lengths at the edge of the range (an expected length of 0 is still a length)
+    ("atnums", ("nd", [], "int")), ("atcorenums", ("nd", [])), ("atcoords", ("coords", 0)), ("atmasses", ("nd", [])),
+    ("atnums", ("nd", [3], "int")),
     ("read", "charge"), ("read", "nelec"), ("read", "atcorenums"), ("read", "natom"), ("read", "spinpol"),
 ]
 ALL_OPS = CORE_OPS + EXTRA_OPS
@@ -91,6 +94,7 @@ def constructors():
         {"mo": ("mo", "mo_u"), "atcorenums": ("nd", [2.0, 2.0])},
         {"atcoords": ("coords", 2)}, {"atcoords": ("coords", 3), "atnums": ("nd", [8, 1, 1], "int"), "charge": -0.5},
         {"atnums": ("list", [1, 1]), "atcorenums": ("list", [1.0, 1.0]), "charge": 0},
+        {"atnums": ("nd", [], "int")}, {"atcoords": ("coords", 0), "charge": 0.5}, {"atnums": ("nd", [], "int"), "atcorenums": ("nd", [])},
     ]
     return out
 
